@@ -113,38 +113,65 @@ mutual
 end
 
 mutual
-  theorem chainsOf_tables : ∀ (up : List (List (String × String))) (r : RTree),
-      ∀ e ∈ chainsOf up r, ∀ rm ∈ e.2, rm ∈ up ∨ rm ∈ r.tables
-    | up, .mk id _ _ _ _ rm0 children => by
-      intro e he rm hrm
+  theorem tables_allNew {P : String → Prop} : ∀ (r : RTree), (∀ rm ∈ r.tables, ∀ p ∈ rm, P p.2) → r.AllNew P
+    | .mk _ _ _ _ _ rm0 children, h => by
+      simp only [RTree.AllNew]
+      refine ⟨h rm0 (by simp [RTree.tables]), tablesList_allNew children ?_⟩
+      intro rm hrm
+      exact h rm (by simp [RTree.tables, hrm])
+  theorem tablesList_allNew {P : String → Prop} : ∀ (rs : List RTree),
+      (∀ rm ∈ tablesList rs, ∀ p ∈ rm, P p.2) → AllNewList P rs
+    | [], _ => trivial
+    | c :: cs, h => by
+      simp only [AllNewList]
+      exact ⟨tables_allNew c (fun rm hrm => h rm (by simp [tablesList, hrm])),
+        tablesList_allNew cs (fun rm hrm => h rm (by simp [tablesList, hrm]))⟩
+end
+
+/-- no replacement in the finished tree is the word `arguments` (decidable; a generated name can in principle be that word —
+nine letters of ID_CHARS, not a keyword — once a scope needs more than 53^8 names) -/
+def noArgsValue (fin : Final) : Bool :=
+  fin.tree.tables.all (fun rm => rm.all (fun p => p.2 != "arguments"))
+
+theorem noArgsValue_allNew (fin : Final) (h : noArgsValue fin = true) : fin.tree.AllNew (fun v => v ≠ "arguments") := by
+  apply tables_allNew
+  intro rm hrm p hp
+  simp only [noArgsValue, List.all_eq_true] at h
+  simpa using h rm hrm p hp
+
+mutual
+  theorem chainsOf_tables : ∀ (up : List TableEntry) (r : RTree),
+      ∀ e ∈ chainsOf up r, ∀ te ∈ e.2, te ∈ up ∨ te.2 ∈ r.tables
+    | up, .mk id _ kind _ _ rm0 children => by
+      intro e he te hte
       simp only [chainsOf, List.mem_cons] at he
       rcases he with rfl | he
-      · simp only [List.mem_cons] at hrm
-        rcases hrm with rfl | hrm
+      · simp only [List.mem_cons] at hte
+        rcases hte with rfl | hte
         · exact Or.inr (by simp [RTree.tables])
-        · exact Or.inl hrm
-      · rcases chainsOfList_tables (rm0 :: up) children e he rm hrm with h | h
+        · exact Or.inl hte
+      · rcases chainsOfList_tables ((kind.isFunc, rm0) :: up) children e he te hte with h | h
         · simp only [List.mem_cons] at h
           rcases h with rfl | h
           · exact Or.inr (by simp [RTree.tables])
           · exact Or.inl h
         · exact Or.inr (by simp [RTree.tables, h])
-  theorem chainsOfList_tables : ∀ (up : List (List (String × String))) (rs : List RTree),
-      ∀ e ∈ chainsOfList up rs, ∀ rm ∈ e.2, rm ∈ up ∨ rm ∈ tablesList rs
+  theorem chainsOfList_tables : ∀ (up : List TableEntry) (rs : List RTree),
+      ∀ e ∈ chainsOfList up rs, ∀ te ∈ e.2, te ∈ up ∨ te.2 ∈ tablesList rs
     | _, [] => by intro e he; cases he
     | up, c :: cs => by
-      intro e he rm hrm
+      intro e he te hte
       simp only [chainsOfList, List.mem_append] at he
       rcases he with he | he
-      · rcases chainsOf_tables up c e he rm hrm with h | h
+      · rcases chainsOf_tables up c e he te hte with h | h
         · exact Or.inl h
         · exact Or.inr (by simp [tablesList, h])
-      · rcases chainsOfList_tables up cs e he rm hrm with h | h
+      · rcases chainsOfList_tables up cs e he te hte with h | h
         · exact Or.inl h
         · exact Or.inr (by simp [tablesList, h])
 end
 
-theorem lookupChain_mem : ∀ (ct : ChainTable) (sid : Nat) (tables : List (List (String × String))),
+theorem lookupChain_mem : ∀ (ct : ChainTable) (sid : Nat) (tables : List TableEntry),
     lookupChain ct sid = some tables → (sid, tables) ∈ ct
   | [], _, _, h => by simp [lookupChain] at h
   | (i, c) :: rest, sid, tables, h => by
@@ -172,19 +199,21 @@ theorem lookup_mem {l : List (String × String)} {k v : String} (h : l.lookup k 
     · exact List.mem_cons_of_mem _ (ih h)
 
 /-- `Scope.resolve` answers the symbol itself or what a table of the chain stores under it -/
-theorem resolveTables_cases : ∀ (tables : List (List (String × String))) (s : String),
-    resolveTables tables s = s ∨ ∃ rm ∈ tables, (s, resolveTables tables s) ∈ rm
+theorem resolveTables_cases : ∀ (tables : List TableEntry) (s : String),
+    resolveTables tables s = s ∨ ∃ te ∈ tables, (s, resolveTables tables s) ∈ te.2
   | [], s => Or.inl rfl
-  | rm :: rest, s => by
-    simp only [resolveTables]
+  | (f, rm) :: rest, s => by
+    unfold resolveTables
     split
     · rename_i r hr
       split
       · exact Or.inl rfl
-      · exact Or.inr ⟨rm, List.mem_cons_self .., lookup_mem hr⟩
-    · rcases resolveTables_cases rest s with h | ⟨rm', hm, hp⟩
-      · exact Or.inl h
-      · exact Or.inr ⟨rm', List.mem_cons_of_mem _ hm, hp⟩
+      · exact Or.inr ⟨(f, rm), List.mem_cons_self .., lookup_mem hr⟩
+    · split
+      · exact Or.inl rfl
+      · rcases resolveTables_cases rest s with h | ⟨te, hm, hp⟩
+        · exact Or.inl h
+        · exact Or.inr ⟨te, List.mem_cons_of_mem _ hm, hp⟩
 
 /-- what `finalize` guarantees about the tables -/
 theorem finalize_words {cs : List Char} (hnd : cs.Nodup) (hne : cs ≠ []) (fl : Flags) (st : St) (fin : Final)
